@@ -573,6 +573,48 @@ fn drive_sorted2(t: &mut Tracer, a: &Args, st: &mut Stats, rng: &Rng) {
             }
         }
     }
+    // numeric sort keys: the caller's order is decimal_strcmp; numerals at the machine-word boundaries
+    if a.wants("sorted:sortable_sort_by_numeric") {
+        let mut r = rng.derive("numsort");
+        let plain = numeric_boundary_pools(false).remove(0).1;
+        for round in 0..(if a.thorough() { 6 } else { 2 }) {
+            let mut input: Vec<String> = vec![];
+            for v in &plain {
+                match r.below(6) {
+                    0 => input.push(v.clone()),
+                    1 => input.push(format!("-{v}")),
+                    2 => input.push(format!("00{v}")),
+                    3 => input.push(format!("+{v}")),
+                    _ => {}
+                }
+            }
+            input.push("18446744073709551616".into());
+            input.push("18446744073709551615".into());
+            input.push("0".into());
+            input.push("5".into());
+            r.shuffle(&mut input);
+            rst(t, "sorted:sortable_sort_by_numeric", json!({"fam":"sorted","variant":format!("numeric{round}")}));
+            let res = guard(|| -> Option<(Vec<String>, Vec<String>, usize, Vec<String>)> {
+                let mut sv = SortableStrVec::new();
+                for s in &input {
+                    sv.push_str(s).ok()?;
+                }
+                sv.sort_by(|x, y| decimal_strcmp(x, y).unwrap_or(Ordering::Equal)).ok()?;
+                let it: Vec<String> = sv.iter_sorted().map(|s| s.to_string()).collect();
+                let gets: Vec<String> = (0..sv.len()).filter_map(|i| sv.get_sorted(i).map(|s| s.to_string())).collect();
+                let ids: Vec<String> = (0..sv.len()).filter_map(|i| sv.get_by_id(i).map(|s| s.to_string())).collect();
+                Some((it, gets, sv.len(), ids))
+            });
+            match res {
+                Ok(Some((it, gets, n, ids))) => t.ev(json!({"op":"sorted_enum","kind":"sortable_sort_by_numeric","ok":true,"input":spool_json(&input),
+                                                           "r":spool_json(&it),"gets":spool_json(&gets),"n":n,"ids":spool_json(&ids)})),
+                Ok(None) => t.ev(json!({"op":"sorted_enum","kind":"sortable_sort_by_numeric","ok":false,"input":spool_json(&input),"r":[],"gets":[],"n":0,"ids":[]})),
+                Err(m) => panic_ev(t, "sorted_enum", m),
+            }
+            st.add("sorted:sortable_sort_by_numeric", input.len() as u64);
+            st.case("sorted:sortable_sort_by_numeric", &[&input.join("\n").into_bytes()]);
+        }
+    }
     // binary search over the sorted view (block search beyond 512 elements), contains
     let probes = ["", "a", "a\u{e9}", "aa", "b", "bb", "k", "\u{e9}", "\u{10ffff}", "pppppppppppppppp", "pppppppppppppppq", "A"];
     for (subject, kind) in [("sorted:sortable_binary_search", "sortable"), ("sorted:zo_binary_search", "zo")] {
@@ -785,4 +827,146 @@ fn drive_utf8(t: &mut Tracer, a: &Args, st: &mut Stats, rng: &Rng) {
     if !cases.is_empty() {
         t.ev(json!({"op":"utf8","cases":cases}));
     }
+}
+
+// ---------------------------------------------------------------- numerals at machine-word boundaries
+
+/// decimal digit strings: input construction only (no comparison is made here)
+fn dec_double(d: &str) -> String {
+    let mut out = Vec::with_capacity(d.len() + 1);
+    let mut carry = 0u8;
+    for c in d.bytes().rev() {
+        let v = (c - b'0') * 2 + carry;
+        out.push(b'0' + v % 10);
+        carry = v / 10;
+    }
+    if carry > 0 {
+        out.push(b'0' + carry);
+    }
+    out.reverse();
+    String::from_utf8(out).unwrap()
+}
+fn dec_inc(d: &str) -> String {
+    let mut b: Vec<u8> = d.bytes().collect();
+    let mut i = b.len();
+    loop {
+        if i == 0 {
+            b.insert(0, b'1');
+            break;
+        }
+        i -= 1;
+        if b[i] == b'9' {
+            b[i] = b'0';
+        } else {
+            b[i] += 1;
+            break;
+        }
+    }
+    String::from_utf8(b).unwrap()
+}
+/// d - 1 for d >= 1
+fn dec_dec(d: &str) -> String {
+    let mut b: Vec<u8> = d.bytes().collect();
+    let mut i = b.len();
+    while i > 0 {
+        i -= 1;
+        if b[i] == b'0' {
+            b[i] = b'9';
+        } else {
+            b[i] -= 1;
+            break;
+        }
+    }
+    let s = String::from_utf8(b).unwrap();
+    let t = s.trim_start_matches('0');
+    if t.is_empty() {
+        "0".to_string()
+    } else {
+        t.to_string()
+    }
+}
+fn pow2(k: usize) -> String {
+    let mut s = "1".to_string();
+    for _ in 0..k {
+        s = dec_double(&s);
+    }
+    s
+}
+fn pow10(d: usize) -> String {
+    format!("1{}", "0".repeat(d))
+}
+fn around(v: &str) -> Vec<String> {
+    vec![dec_dec(v), v.to_string(), dec_inc(v)]
+}
+/// the spellings of one magnitude v: signs, leading zeros, an empty / zero / non-zero fraction with and
+/// without trailing zeros
+fn spellings(v: &str) -> Vec<String> {
+    vec![
+        v.to_string(),
+        format!("+{v}"),
+        format!("-{v}"),
+        format!("00{v}"),
+        format!("-00{v}"),
+        format!("{v}.0"),
+        format!("{v}.00"),
+        format!("{v}."),
+        format!("{v}.5"),
+        format!("{v}.50"),
+        format!("0{v}.500"),
+        format!("{v}.05"),
+        format!("-{v}.5"),
+        format!("-{v}.50"),
+    ]
+}
+
+/// Numerals at every machine-word boundary: 2^k - 1, 2^k, 2^k + 1 (k = 8 .. 128) and 10^d - 1, 10^d,
+/// 10^d + 1 (d = 1 .. 40): all pairs of the plain values, square pools with their negatives and 0
+/// (order laws on all triples), and per boundary the different spellings of value - 1, value, value + 1.
+fn numeric_boundary_pools(thorough: bool) -> Vec<(String, Vec<String>)> {
+    let ks = [8usize, 16, 31, 32, 53, 63, 64, 127, 128];
+    let mut pools = vec![];
+    let mut p2: Vec<String> = vec![];
+    for k in ks {
+        p2.extend(around(&pow2(k)));
+    }
+    let mut p10: Vec<String> = vec![];
+    for d in 1..=40 {
+        p10.extend(around(&pow10(d)));
+    }
+    let mut plain: Vec<String> = p2.iter().chain(p10.iter()).cloned().collect();
+    plain.push("0".into());
+    plain.sort();
+    plain.dedup();
+    pools.push(("bound_plain".to_string(), plain));
+    // square pools: the values, 0 and the negatives
+    let mut sq = vec!["0".to_string(), "-0".to_string()];
+    for v in &p2 {
+        sq.push(v.clone());
+        sq.push(format!("-{v}"));
+    }
+    pools.push(("bound_pow2".to_string(), sq));
+    for (name, lo, hi) in [("bound_p10a", 1usize, 10usize), ("bound_p10b", 11, 20), ("bound_p10c", 17, 24), ("bound_p10d", 25, 34), ("bound_p10e", 31, 40)] {
+        let mut sq = vec!["0".to_string(), pow2(64), dec_inc(&pow2(64)), dec_dec(&pow2(64)), pow2(63)];
+        for d in lo..=hi {
+            for v in around(&pow10(d)) {
+                sq.push(v.clone());
+                if d % 2 == 0 {
+                    sq.push(format!("-{v}"));
+                }
+            }
+        }
+        pools.push((name.to_string(), sq));
+    }
+    // spellings around each boundary
+    let ds: Vec<usize> = if thorough { (1..=40).collect() } else { vec![1, 9, 10, 19, 20, 21, 39] };
+    let mut groups: Vec<(String, String)> = ks.iter().map(|&k| (format!("spell_2p{k}"), pow2(k))).collect();
+    groups.extend(ds.iter().map(|&d| (format!("spell_10p{d}"), pow10(d))));
+    for (name, v) in groups {
+        let mut pool = vec!["0".to_string(), "-0".to_string()];
+        for x in around(&v) {
+            pool.extend(spellings(&x));
+        }
+        pools.push((name, pool));
+    }
+    pools
 }
